@@ -489,20 +489,32 @@ func init() {
 			// 64 bits carry nothing
 			var want uint64
 			end := -1
+			overflow := false // a bit beyond the 64 a uint holds is set
 			for i, x := range in {
 				if 7*i < 64 {
 					want |= uint64(x&0x7f) << uint(7*i)
+					if 7*i+7 > 64 && x&0x7f>>uint(64-7*i) != 0 {
+						overflow = true
+					}
+				} else if x&0x7f != 0 {
+					overflow = true
 				}
 				if x&0x80 == 0 {
 					end = i + 1
 					break
 				}
 			}
+			// what must be read: every encoding of up to ten bytes (the longest WriteToLeb128 produces, for a
+			// value of 64 bits) that stays within 64 bits.  A longer (padded) encoding or one that overflows may
+			// be refused; if it is accepted, the value must still be what the encoding says.
+			must := end >= 0 && end <= 10 && !overflow
 			switch {
 			case end < 0 && err == nil:
 				o.Fail = "an encoding without a final byte was accepted"
-			case end >= 0 && (err != nil || uint64(v) != want || int(n) != end):
+			case must && (err != nil || uint64(v) != want || int(n) != end):
 				o.Fail = fmt.Sprintf("ReadLeb128(%x) = %d, %d bytes, err %v; the encoding says %d in %d bytes", in, v, n, err, want, end)
+			case end >= 0 && !overflow && err == nil && (uint64(v) != want || int(n) != end):
+				o.Fail = fmt.Sprintf("ReadLeb128(%x) = %d, %d bytes; the encoding says %d in %d bytes", in, v, n, want, end)
 			}
 			return o
 		case 1306:
